@@ -41,9 +41,12 @@ pub struct State {
     pub arms: Vec<Arm>,
     pub counts: BTreeMap<String, u64>,
     pub trace_on: bool,
-    pub trace: Vec<(String, u64)>,
+    /// (point, arg, CLOCK_MONOTONIC nanoseconds)
+    pub trace: Vec<(String, u64, u64)>,
     pub parked: Vec<(String, u64)>,
     pub release_gen: u64,
+    /// per point-name release generations (release of one parked point only)
+    pub release_named: HashMap<String, u64>,
     /// fault plan: name -> set of args to fail (u64::MAX = all)
     pub faults: HashMap<String, Vec<u64>>,
     pub fault_hits: Vec<(String, u64, bool)>,
@@ -88,7 +91,7 @@ fn on_point(name: &'static str, arg: u64) {
             *st.wal_written.entry(arg).or_insert(0) += 1;
         }
         if st.trace_on {
-            st.trace.push((name.to_string(), arg));
+            st.trace.push((name.to_string(), arg, mono_ns()));
         }
         for arm in st.arms.iter_mut() {
             if arm.point != name {
@@ -126,8 +129,11 @@ fn on_point(name: &'static str, arg: u64) {
                 let mut st = lock();
                 st.parked.push((name.to_string(), arg));
                 let my_gen = st.release_gen;
+                let my_named = st.release_named.get(name).copied().unwrap_or(0);
                 CV.notify_all();
-                while st.release_gen == my_gen {
+                while st.release_gen == my_gen
+                    && st.release_named.get(name).copied().unwrap_or(0) == my_named
+                {
                     st = CV.wait(st).unwrap_or_else(|e| e.into_inner());
                 }
                 st.parked.retain(|(n, a)| !(n == name && *a == arg));
@@ -181,6 +187,39 @@ pub fn release() {
     let mut st = lock();
     st.release_gen += 1;
     CV.notify_all();
+}
+
+/// Release only the threads parked at point `name`.
+pub fn release_point(name: &str) {
+    let mut st = lock();
+    *st.release_named.entry(name.to_string()).or_insert(0) += 1;
+    CV.notify_all();
+}
+
+/// Wait until some thread is parked at `name` (or timeout).
+pub fn wait_parked_at(name: &str, timeout: Duration) -> bool {
+    let mut st = lock();
+    let deadline = std::time::Instant::now() + timeout;
+    while !st.parked.iter().any(|(n, _)| n == name) {
+        let now = std::time::Instant::now();
+        if now >= deadline {
+            return false;
+        }
+        let (g, _) = CV
+            .wait_timeout(st, deadline - now)
+            .unwrap_or_else(|e| e.into_inner());
+        st = g;
+    }
+    true
+}
+
+pub fn parked_now() -> Vec<(String, u64)> {
+    lock().parked.clone()
+}
+
+/// Remove the arms for one point (so that later hits pass through).
+pub fn disarm_point(name: &str) {
+    lock().arms.retain(|a| a.point != name);
 }
 
 /// Wait until some thread is parked (or timeout). Returns the parked list.
@@ -238,7 +277,13 @@ pub fn set_trace(on: bool) {
     }
 }
 
-pub fn take_trace() -> Vec<(String, u64)> {
+pub fn mono_ns() -> u64 {
+    let mut ts = libc::timespec { tv_sec: 0, tv_nsec: 0 };
+    unsafe { libc::clock_gettime(libc::CLOCK_MONOTONIC, &mut ts) };
+    (ts.tv_sec as u64) * 1_000_000_000 + ts.tv_nsec as u64
+}
+
+pub fn take_trace() -> Vec<(String, u64, u64)> {
     std::mem::take(&mut lock().trace)
 }
 
